@@ -209,8 +209,12 @@ def check(pid, tier, seed):
            "rule": "cases = TLC-enumerated states of PathStrP (46620 (directory, name) pairs over the characters / a b . space :), PathTreeP (directory trees; a stride sample in quick, all in thorough) and a path "
                    "cover of VisitorP's graph; distinct_nontrivial = distinct (trailing separator, absolute, lengths) string classes + distinct (node count, depth, kinds) tree shapes + visitor histories",
            "samples": samples, "states": sum(m["distinct_states"] for m in mcs), "model_checks": mcs}
+    extra_cov = None
+    if tier == "thorough":   # the neighbouring specification module that no property speaks about (SPEC-NOTEs only)
+        from lib import extrarun
+        extra_cov = {"spec_growth": extrarun.summary("dynlib", tier, seed)}
     rc = verdict.finish()
-    common.write_evidence(pid, tier, seed, "exploration", cov, ASSUMPTIONS, time.time() - t0, len(verdict.violations))
+    common.write_evidence(pid, tier, seed, "exploration", cov, ASSUMPTIONS, time.time() - t0, len(verdict.violations), extra=extra_cov)
     return rc
 
 
